@@ -28,6 +28,7 @@ class ReadRule(BaseRule):
         self.bf = bf
         self.delivered = []  # (kind, AV, state, node)
         self.decodes = []
+        self.decode_data = []  # truthiness of the raw bytes handed to each _decode call (None: may be empty)
         self.gets = []  # (guarded, state, node): a sized get() and whether the queue is known to hold an element there
 
     def _is_buf(self, node):
@@ -50,6 +51,8 @@ class ReadRule(BaseRule):
             fl = kw.get("flush_decoder", pos[2] if len(pos) > 2 else None)
             dc = kw.get("decode_content", pos[1] if len(pos) > 1 else None)
             self.decodes.append((st.view(fl) if fl is not None else None, st.view(dc) if dc is not None else None, s, node))
+            d0 = kw.get("data", pos[0] if pos else None)
+            self.decode_data.append(st.view(d0).truth if d0 is not None else None)
             # decoding with decode_content false returns the raw bytes
             dcv = st.view(dc) if dc is not None else UNK
             tags = {"raw"} if dcv.truth is False else {"decoded"}
@@ -162,6 +165,27 @@ def analyse_reader(ctx, name, params=None):
         if o.kind == "return" and o.val is not None:
             rule.delivered.append(("return", o.st.view(o.val), o.st, fi.node))
     return fi, rule, outs
+
+
+
+def stale_flush_clause(ctx, R6, fi, rule):
+    """(C12-R6, shared with C13) the flush flag belongs to the bytes it accompanies."""
+    # the flag belongs to the bytes it accompanies: bytes that may be empty (the raw stream may just have ended) are never decoded
+    # under a flag that is definitely false - a flag computed from an EARLIER read of the same call is stale at the end of the body
+    seen_s = set()
+    for (flv, dcv, st, node), dt in zip(rule.decodes, rule.decode_data):
+        fl = flv.val if (flv is not None and flv.kind == "const") else (flv.truth if flv is not None else None)
+        amt_av = st.view(st.env.get("f0:amt", UNK))
+        amt0 = st.ts.get(("cmp", "p:amt", "==", "0")) if amt_av.kind != "const" else (amt_av.val == 0)
+        if dt is True or fl is not False or amt0 is True:
+            continue
+        k_ = (node.lineno, dt)
+        if k_ in seen_s:
+            continue
+        seen_s.add(k_)
+        ctx.ob(R6, fi.qual, f"decode at line {node.lineno}: bytes that may be empty (end of the raw stream) are not decoded under a definitely-false flush flag", False,
+               "the flush flag was decided on an earlier read of this call: when the refill read hits the end of the body the decoder is never flushed, so an incomplete zstd frame "
+               "(or a held-back tail) goes unnoticed and read(n) / stream(n) end normally", witness=st.witness(), node=node)
 
 
 def run(ctx):
@@ -426,6 +450,7 @@ def run(ctx):
         ctx.ob(R6, fi.qual, f"amt-is-None={amt_none} data-truthy={data_t} amt==0:{amt0} -> flush={fl}", fl == want,
                "" if fl == want else "the tail held back by the decoder is never delivered (or the decoder is flushed mid-stream)", witness=st.witness(), node=node)
     ctx.sites(R6, len(seen), 3, "decode calls in read with decided flush flag")
+    stale_flush_clause(ctx, R6, fi, rule)
 
     # ------------------------------------------------------------------ R7 stream drains the queue
     R7 = ctx.rule("C12-R7", "stream()'s loop ends only when the stdlib response is closed and the decoded-byte queue is empty", "E4")
